@@ -162,5 +162,10 @@ def run(prop, tier):
 
 
 def replay(prop, path):
+    with open(path) as f:
+        kind = json.load(f)["case"].get("kind")
+    if kind == "match":
+        from . import matchprops
+        return matchprops.replay(prop, path)
     from . import parseprops
     return parseprops.replay(prop, path)
